@@ -188,7 +188,7 @@ func vfReadOne(c *Conn, rp int, a int) (g vfGot, ok bool) {
 	}
 }
 
-func vfPick(opts []int) int {
+func vfPick[T any](opts []T) T {
 	return opts[vfChoose(len(opts))]
 }
 
